@@ -56,14 +56,16 @@ pub trait Scenario: Sync {
 
 pub mod block_lockstep;
 pub mod bus_crash;
+pub mod bus_history;
 pub mod cache_bank_history;
+pub mod dma_batches;
 pub mod joypad_events;
 pub mod lcd_batches;
 pub mod mbc_history;
 pub mod timer_batches;
 
 pub fn all() -> Vec<&'static dyn Scenario> {
-    vec![&timer_batches::TimerBatches, &block_lockstep::BlockLockstep, &bus_crash::BusCrash, &mbc_history::MbcHistory, &cache_bank_history::CacheBankHistory, &joypad_events::JoypadEvents, &lcd_batches::LcdBatches]
+    vec![&timer_batches::TimerBatches, &block_lockstep::BlockLockstep, &bus_crash::BusCrash, &mbc_history::MbcHistory, &cache_bank_history::CacheBankHistory, &joypad_events::JoypadEvents, &lcd_batches::LcdBatches, &dma_batches::DmaBatches, &bus_history::BusHistory]
 }
 
 pub fn by_name(name: &str) -> Option<&'static dyn Scenario> {
@@ -75,10 +77,12 @@ pub fn plan(property: &str) -> Vec<&'static str> {
     match property {
         "C01" | "C02" => vec!["block_lockstep"],
         "C03" => vec!["cache_bank_history"],
+        "C10" => vec!["bus_history"],
         "C11" => vec!["bus_crash"],
         "C12" => vec!["mbc_history"],
         "C13" => vec!["timer_batches"],
         "C14" => vec!["lcd_batches"],
+        "C16" => vec!["dma_batches"],
         "C17" => vec!["joypad_events"],
         _ => vec![],
     }
